@@ -3788,6 +3788,12 @@ class ScoreVariant(object):
 
         for start, end, offset in self.segments:
             delta = offset - start.t
+            # the quarter duration in force at the start of the segment: it may
+            # have been set before the segment (e.g. in a section that this
+            # variant skips, or before the first time point)
+            part.set_quarter_duration(
+                offset, int(self.part.quarter_duration_map(start.t))
+            )
             qd = self.part.quarter_durations(start.t, end.t)
             for t, quarter in qd:
                 part.set_quarter_duration(t + delta, quarter)
